@@ -19,15 +19,34 @@ type importCase struct {
 	Formats []string `json:"formats"`
 	Special string   `json:"special,omitempty"`
 	Split   int      `json:"split,omitempty"` // global/project split mask
+	Names   int      `json:"names,omitempty"` // file naming scheme
 }
 
 var fileDirs = []string{"", "sub", "sub/deep", "other"}
 
+// naming schemes: 0 is the plain one; the others give distinct files paths that an identity test
+// which is not exact (case folding, base name only, prefix or extension stripping) would confuse.
+var nameSchemes = [][]string{
+	nil,
+	{"main", "Deploy", "deploy", "DEPLOY"},
+	{"main", "api/tasks", "API/tasks", "Api/tasks"},
+	{"main", "sub/a", "sub/a.b", "sub/a.b.c"},
+	{"main", "x y", "x-y", "x_y"},
+	{"f", "d/f", "d/d/f", "d/d/d/f"},
+	{"main", "sub/main", "sub/Main", "Sub/main"},
+}
+
 func (c importCase) fileName(i int) string {
+	if c.Names > 0 {
+		return nameSchemes[c.Names][i] + "." + c.Formats[i]
+	}
 	return filepath.Join(fileDirs[i], fmt.Sprintf("f%d.%s", i, c.Formats[i]))
 }
 
 func (c importCase) String() string {
+	if c.Names > 0 {
+		return fmt.Sprintf("n=%d edges=%v broken=%d/%s formats=%v names=%q", c.N, c.Edges, c.Broken, c.How, c.Formats, nameSchemes[c.Names])
+	}
 	return fmt.Sprintf("n=%d edges=%v broken=%d/%s formats=%v special=%s split=%d", c.N, c.Edges, c.Broken, c.How, c.Formats, c.Special, c.Split)
 }
 
@@ -35,7 +54,7 @@ func (c importCase) content(i int) string {
 	var imports []string
 	for _, e := range c.Edges {
 		if e[0] == i {
-			rel, _ := filepath.Rel(filepath.Join("/r", fileDirs[i]), filepath.Join("/r", c.fileName(e[1])))
+			rel, _ := filepath.Rel(filepath.Join("/r", filepath.Dir(c.fileName(i))), filepath.Join("/r", c.fileName(e[1])))
 			imports = append(imports, rel)
 		}
 	}
@@ -194,7 +213,7 @@ func c17One(x *ctx, c importCase) bool {
 		return false
 	}
 	x.res.Evaluations++
-	x.kinds[fmt.Sprintf("edges=%d broken=%v special=%s", len(c.Edges), c.Broken >= 0, c.Special)] = true
+	x.kinds[fmt.Sprintf("edges=%d broken=%v special=%s names=%d", len(c.Edges), c.Broken >= 0, c.Special, c.Names)] = true
 	switch {
 	case r.hang:
 		x.violation("hang", c.String(), "loading did not terminate within 30s: "+c.String(), c, false)
@@ -282,6 +301,15 @@ func unitC17(x *ctx) {
 				}
 			}
 		})
+	case "c17-names": // every import relation on 3 files under every adversarial naming scheme, fault free and with one file missing
+		for ns := 1; ns < len(nameSchemes); ns++ {
+			relations(3, func(es [][2]int) {
+				do(importCase{N: 3, Edges: es, Broken: -1, Formats: yaml3, Names: ns})
+				for _, b := range []int{1, 2} {
+					do(importCase{N: 3, Edges: es, Broken: b, How: "missing", Formats: yaml3, Names: ns})
+				}
+			})
+		}
 	case "c17-formats": // relations with <=2 edges x every assignment of formats
 		fm := []string{"yaml", "json", "toml"}
 		relations(3, func(es [][2]int) {
